@@ -29,6 +29,13 @@ def correspondence(ctx):
         for kw in (alphas if ctx.tier == "thorough" else alphas[:3]):
             recs.append(Recipe(L, **kw))
     recs.append(Recipe(3000, allow=15, exclude=16))
+    # long passwords whose required set is tiny relative to the alphabet: the chance of missing it is far from negligible
+    # however long the password (1000 three-byte characters allowed, two symbols required: a 513-character password misses
+    # them 36% of the time), so no length justifies the simple formula
+    cjk = "".join(chr(0x4e00 + i) for i in range(1000))
+    for L in ((513, 700) if ctx.tier == "quick" else (257, 512, 513, 600, 1000, 3000)):
+        recs.append(Recipe(L, allow_chars=cjk, require_sets=["#%"]))
+        recs.append(Recipe(L, allow_chars=cjk, require_sets=["#", "é"]))
     n = 500 if ctx.tier == "quick" else 6000
     for _ in range(n):
         r = chargen.gen_recipe(rng, big_lengths=(rng.random() < 0.12))
